@@ -165,3 +165,15 @@ package dastard
 // distributeData that it establishes, and that the table is the true geometry, are checked on the real code by a
 // bounded stand-in.
 //@ bounded C04 TestVerifBoundedLanceroChanOrder : real updateChanOrderMap for every geometry of 1..3 cards (first card up to 6x6, others up to 3x3): permutation, fb right after err, channel (card,col,row) -> readout word (row-major)
+
+// ---- the reader goroutine: ownership of the demultiplexed buffers ----
+// launchLanceroReader's goroutine (hardware, ticker) is not verified as a whole.  This restriction-only contract
+// checks one fact the consumer depends on: every block it is handed consists of buffers ALLOCATED IN THE SAME
+// ITERATION of the read loop -- the block assembly mixes feedback in place and the per-channel streams keep slices of
+// these buffers, so a buffer that is re-used for a later read would change data already handed over.
+//@ func (*LanceroSource).launchLanceroReader$1
+//@   props C04
+//@   opt restriction_only
+//@   cut before send: ownership: freshin(1, datacopies) && (forall k int :: {datacopies[k]} 0 <= k && k < len(datacopies) ==> datacopies[k].arr == 0 || freshin(1, datacopies[k]))
+//@   loop 2
+//@     invariant freshin(1, datacopies) && (forall k int :: {datacopies[k]} 0 <= k && k < len(datacopies) ==> datacopies[k].arr == 0 || freshin(1, datacopies[k]))
